@@ -54,7 +54,7 @@ BigCases == {BigSigned(k) : k \in {1, 36, 71, 300}}
 
 \* intact => verifies, for tables around / above the 0x4000-byte raw chunk (block table = 16 bytes per file)
 IntactBase == [kind |-> "intact_only", ver |-> 4, attrs |-> "none", crc |-> FALSE, enc |-> FALSE, comp |-> FALSE,
-               ctables |-> FALSE, lens |-> FALSE, prefix |-> 0, nfiles |-> 1, session |-> FALSE]
+               ctables |-> FALSE, lens |-> FALSE, prefix |-> 0, nfiles |-> 1, nsess |-> 0, skind |-> "none", listfile |-> TRUE]
 IntactCases ==
     \* (1) tables around / above the 0x4000-byte raw chunk (block table = 16 bytes per file)
     {[IntactBase EXCEPT !.nfiles = n] : n \in {1022, 1023, 1024, 1025, 1100, 2049}}
@@ -70,12 +70,16 @@ IntactCases ==
     \*     every file reads back and passes SFileVerifyFile SECTOR_CRC / FILE_CRC / FILE_MD5
     \cup {[IntactBase EXCEPT !.ver = v, !.attrs = a, !.crc = cr, !.enc = ec, !.comp = ec, !.lens = TRUE, !.nfiles = 2]
             : v \in 1..4, a \in {"none", "crc32", "full"}, cr \in BOOLEAN, ec \in BOOLEAN}
-    \* (4) archives with attributes that went through an in-place MutableArchive session (add, replace, remove, rename;
-    \*     flushed and reopened): every detector passes for every file -- untouched, replaced, renamed and added ones
-    \cup {[IntactBase EXCEPT !.ver = v, !.attrs = a, !.crc = cr, !.lens = TRUE, !.nfiles = 2, !.session = TRUE]
-            : v \in 1..4, a \in {"crc32", "full"}, cr \in BOOLEAN}
+    \* (4) archives that went through 1, 2 or 3 separate in-place MutableArchive sessions (close / reopen between), each
+    \*     session of one kind (add-only, replace-only, remove-only, rename-only, mixed), with and without a (listfile),
+    \*     attributes none / crc32 / full, V1..V4: after EVERY session every detector passes for every file and every
+    \*     version-4 digest is valid
+    \cup {[IntactBase EXCEPT !.ver = v, !.attrs = a, !.crc = (a # "none"), !.lens = TRUE, !.nfiles = 2,
+                             !.nsess = n, !.skind = k, !.listfile = lf]
+            : v \in 1..4, a \in {"none", "crc32", "full"}, n \in 1..3,
+              k \in {"add", "replace", "remove", "rename", "mixed"}, lf \in BOOLEAN}
     \cup {[IntactBase EXCEPT !.ver = v, !.attrs = "full", !.crc = TRUE, !.enc = TRUE, !.comp = TRUE, !.lens = TRUE,
-                             !.nfiles = 2, !.session = TRUE] : v \in {1, 4}}
+                             !.nfiles = 2, !.nsess = 2, !.skind = "mixed"] : v \in {1, 4}}
 
 \* signatures of many distinct messages verify (about 1 RSA value in 256 has a zero top byte and needs left padding:
 \* P(no such value among n messages) = (255/256)^n : n = 2000 -> 4.0e-4, n = 8000 -> 2.5e-14)
